@@ -19,7 +19,7 @@ def run(ctx):
     V = vlib.Verdict(PID)
     binp = vlib.go_build("./cmd/pkt")
     wd = vlib.scratch("c19-%s" % ctx.tier)
-    rst, rbad = pc.real_run(ctx, binp, wd, "raw", 40000 if quick else 3000000, nproc=8 if quick else 14, enum_stride=6 if quick else 1)
+    rst, rbad = pc.real_run(ctx, binp, wd, "raw", 160000 if quick else 3000000, nproc=8 if quick else 14, enum_stride=2 if quick else 1)
     for b in rbad:
         if b["reason"] in ("panic-no-recovery", "hang", "crash"):
             d = pc.sig_dict(b)
